@@ -36,6 +36,8 @@ class TS(object):
         self.writers = set(q.split(".")[-1] for q in effects.writers())
         self.writers |= {"_Traph__add_page"}
         self.map = {}
+        self.returns = None
+        self.fresh_methods = set()
 
     def record(self, ident, ok, detail):
         prev = self.map.get(ident)
@@ -45,10 +47,34 @@ class TS(object):
     # ------------------------------------------------------------------
     def check_class(self, cname="Traph"):
         cls = self.program.classes[cname][1]
+        # summaries: methods of the class that return a Fresh node (so that extracting
+        # a helper does not change the verdict); two rounds reach the fixpoint for
+        # helpers calling helpers
+        self.fresh_methods = set()
+        for _ in range(3):
+            for f in cls.body:
+                if isinstance(f, ast.FunctionDef):
+                    self.summarise(cname, f)
+        self.map = {}
         for f in cls.body:
             if isinstance(f, ast.FunctionDef):
                 self.check_fn(cname, f)
         return [self.map[k] for k in sorted(self.map)]
+
+    def summarise(self, cname, fn):
+        self.q = "%s.%s" % (cname, fn.name)
+        self.is_gen = any(isinstance(n, ast.Yield) for n in ast.walk(fn))
+        self.is_request = False
+        if self.is_gen:
+            return
+        self.returns = []
+        st = {}
+        self.block(fn.body, st)
+        rets = self.returns
+        self.returns = None
+        if rets and all(r == "F" for r in rets):
+            self.fresh_methods.add(fn.name)
+            self.fresh_methods.add("_%s%s" % (cname, fn.name) if fn.name.startswith("__") else fn.name)
 
     def check_fn(self, cname, fn):
         self.q = "%s.%s" % (cname, fn.name)
@@ -89,6 +115,14 @@ class TS(object):
         elif isinstance(s, ast.Return):
             if s.value is not None:
                 self.expr(s.value, st)
+                if getattr(self, "returns", None) is not None:
+                    v = s.value
+                    if isinstance(v, ast.Tuple) and v.elts:
+                        v = v.elts[0]
+                    if isinstance(v, ast.Name) and v.id in st:
+                        self.returns.append(st[v.id])
+                    else:
+                        self.returns.append("?")
         elif isinstance(s, ast.If):
             self.expr(s.test, st)
             a = dict(st)
@@ -163,7 +197,7 @@ class TS(object):
                     st["@" + t.value.id] = "S"
         if isinstance(value, ast.Call) and isinstance(value.func, ast.Attribute):
             nm = value.func.attr
-            if nm in FRESH_SOURCES or nm.endswith("__add_page"):
+            if nm in FRESH_SOURCES or nm.endswith("__add_page") or nm in getattr(self, "fresh_methods", ()):
                 src = "F"
         for t in targets:
             names = []
